@@ -51,6 +51,27 @@ use super::{
 
 const SMALL_RESIDUAL: usize = 8;
 
+/// Largest refined subset that a join stage keeps inline instead of descending
+/// into a cached trie child.
+#[inline(always)]
+fn trie_inline_max() -> usize {
+    #[cfg(feature = "verif-hooks")]
+    if let Some(v) = egglog_concurrency::verif::knob("trie_inline_max") {
+        return v as usize;
+    }
+    16
+}
+
+/// Number of estimated tuples above which the remaining stages are re-sorted.
+#[inline(always)]
+fn stage_resort_threshold() -> usize {
+    #[cfg(feature = "verif-hooks")]
+    if let Some(v) = egglog_concurrency::verif::knob("stage_resort_threshold") {
+        return v as usize;
+    }
+    32
+}
+
 struct SparseColumnIndex {
     n_keys: usize,
     n_subsets: usize,
@@ -1283,7 +1304,7 @@ impl<'a> JoinState<'a> {
         }
         let chunk_size = action_buf.morsel_size(cur, instr_order.len());
         let mut cur_size = estimate_size(&stages.instrs[instr_order.get(cur)], binding_info);
-        if cur_size > 32 && cur % 3 == 1 && cur < instr_order.len() - 1 {
+        if cur_size > stage_resort_threshold() && cur % 3 == 1 && cur < instr_order.len() - 1 {
             // If we have a reasonable number of tuples to process, adjust the variable order every
             // 3 rounds, but always make sure to readjust on the second roung.
             sort_plan_by_size(instr_order, leaf_scans, cur, &stages.instrs, binding_info);
@@ -1434,7 +1455,7 @@ impl<'a> JoinState<'a> {
                     let mut updates = FrameUpdates::with_capacity(cmp::min(chunk_size, cur_size));
                     prober.for_each(|val, x| {
                         updates.push_binding(*var, val[0]);
-                        if x.size() <= 16 {
+                        if x.size() <= trie_inline_max() {
                             let sub = refine_subset(x, &a.cs, &table, has_stale, pool);
                             if sub.is_empty() {
                                 updates.rollback();
@@ -1486,7 +1507,7 @@ impl<'a> JoinState<'a> {
                     smaller.for_each(|val, small_sub| {
                         if let Some(large_sub) = larger.get_subset(val) {
                             updates.push_binding(*var, val[0]);
-                            if small_sub.size() <= 16 {
+                            if small_sub.size() <= trie_inline_max() {
                                 let small_sub = refine_subset(
                                     small_sub,
                                     &smaller_scan.cs,
@@ -1521,7 +1542,7 @@ impl<'a> JoinState<'a> {
                                 }
                                 updates.refine_atom(smaller_atom, smaller_node);
                             }
-                            if large_sub.size() <= 16 {
+                            if large_sub.size() <= trie_inline_max() {
                                 let large_sub = refine_subset(
                                     large_sub,
                                     &larger_scan.cs,
@@ -1610,7 +1631,7 @@ impl<'a> JoinState<'a> {
                                 if let Some(sub) = probers[i].get_subset(key) {
                                     let table =
                                         self.db.tables[atoms[rest[i].atom].table].table.as_ref();
-                                    if sub.size() <= 16 {
+                                    if sub.size() <= trie_inline_max() {
                                         let sub = refine_subset(
                                             sub,
                                             &rest[i].cs,
@@ -1651,7 +1672,7 @@ impl<'a> JoinState<'a> {
                                     return;
                                 }
                             }
-                            if sub.size() <= 16 {
+                            if sub.size() <= trie_inline_max() {
                                 let main_sub = refine_subset(
                                     sub,
                                     &main_spec.cs,
